@@ -380,7 +380,10 @@ class Interp:
                 self.tr.from_ann(f.module, a.vararg.annotation), fl or BOTTOM))
         if a.kwarg:
             fl = (given or {}).get("**" + a.kwarg.arg) if given is not None else self.params.get((f.qual, "**" + a.kwarg.arg))
-            env[a.kwarg.arg] = AV(types=frozenset({"dict"}), elem=fl or BOTTOM)
+            if fl is not None and fl.attrs is not None:
+                env[a.kwarg.arg] = AV(types=frozenset({"dict"}), elem=fl.elem or BOTTOM, attrs=fl.attrs)
+            else:
+                env[a.kwarg.arg] = AV(types=frozenset({"dict"}), elem=fl or BOTTOM)
         return env
 
     def _run_body(self, f: FuncInfo, env: Env) -> tuple[AV, Env]:
@@ -438,11 +441,15 @@ class Interp:
             elif a.vararg:
                 given["*" + a.vararg.arg] = join(given.get("*" + a.vararg.arg), v)
         names = {p.arg for p in [*pos, *a.kwonlyargs]}
+        extra: dict[str, AV] = {}
         for k, v in kwargs.items():
             if k in names:
                 given[k] = v
             elif a.kwarg:
-                given["**" + a.kwarg.arg] = join(given.get("**" + a.kwarg.arg), v)
+                extra[k] = v
+        if a.kwarg and extra:
+            # `**kwargs` keeps its keys: f(..., x=1) received by `def f(**kw)` and forwarded as g(**kw) is g(x=1)
+            given["**" + a.kwarg.arg] = AV(types=frozenset({"dict"}), elem=join_all(list(extra.values())), attrs=tuple(sorted(extra.items())))
         try:
             ckey = (f.qual, tuple(sorted(given.items(), key=lambda kv: kv[0])))
             hit = self._inline_cache.get(ckey)
@@ -478,7 +485,8 @@ class Interp:
             if k in names:
                 self._set(self.params, (f.qual, k), v)
             elif a.kwarg:
-                self._set(self.params, (f.qual, "**" + a.kwarg.arg), v)
+                self._set(self.params, (f.qual, "**" + a.kwarg.arg),
+                          AV(types=frozenset({"dict"}), elem=v, attrs=((k, v),)))
         ret = self.rets.get(f.qual)
         if ret is None:
             ret = self.shape(self.tr.from_ann(f.module, f.node.returns), BOTTOM)
@@ -809,11 +817,18 @@ class Interp:
                 args.append(self.ev(a, env))
         kwargs: dict[str, AV] = {}
         star_kw = BOTTOM
+        self._star_expanded = False
         for k in n.keywords:
             if k.arg is None:
-                star_kw = join(star_kw, self.ev(k.value, env))
+                sv = self.ev(k.value, env)
+                star_kw = join(star_kw, sv)
+                if sv.attrs is not None and "dict" in sv.types:
+                    for kk, vv in sv.attrs:
+                        kwargs.setdefault(kk, vv)
+                    self._star_expanded = True
             else:
                 kwargs[k.arg] = self.ev(k.value, env)
+        star_expanded = self._star_expanded
         where = self.where(n)
         # super().m(...)
         if isinstance(n.func, ast.Attribute) and isinstance(n.func.value, ast.Call) and \
@@ -933,6 +948,11 @@ class Interp:
                 self.render_log.setdefault("<non-constant template name>", {})
             return AV(types=frozenset({"jinja2.Template"}), consts=names or None)
         if attr == "render" and "jinja2.Template" in recv.types:
+            if getattr(self, "_star_expanded", False) and not self._inline_stack and recv.consts and len(recv.consts) > 1:
+                # a forwarding helper (`def _render_to(path, name, **context): get_template(name).render(**context)`) analysed on its own
+                # sees the join of all its call sites: every template with every other template's variables.  Its call sites are
+                # interpreted one by one (call-site-sensitive inlining), which is where the render is recorded.
+                return typed("str", labels=[CONST])
             for name in (recv.consts or ["<non-constant template name>"]):
                 d = self.render_log.setdefault(name, {})
                 sites = self.render_where.setdefault(name, [])
